@@ -2,7 +2,7 @@
 from __future__ import annotations
 
 from dataclasses import dataclass, field
-from typing import List, Optional
+from typing import List, Optional, Tuple
 
 from krrood.entity_query_language.predicate import Symbol
 
@@ -38,6 +38,7 @@ class Box(Symbol):
     tags: List[str] = field(default_factory=list)
     weight: int = 0
     spare: Optional[Part] = None
+    row: Tuple[Part, ...] = ()
 
     def __repr__(self):
         return f"{type(self).__name__}({self.label})"
